@@ -207,6 +207,10 @@ func (x *Exec) specIdent(s *State, name string, sc *specCtx) *Value {
 			return x.specObject(s, o)
 		}
 	}
+	if name == "ctx" && x.specWorldID != 0 {
+		// handlers unwrap their sdk.Context into a local: contracts may always name the chain state as ctx
+		return &Value{K: KCtx, W: x.specWorldID}
+	}
 	panic(execPanic{"contract: unknown identifier " + name})
 }
 
@@ -497,6 +501,16 @@ func (x *Exec) specCall(s *State, e *CExpr, sc *specCtx) *Value {
 				ts = append(ts, ev(i).T)
 			}
 			return boolV(App(name, SBool, ts...))
+		case "K":
+			// K("module"): the keeper of another comdex module (for reading its state in contracts)
+			name := args[0].Name
+			for _, kn := range x.Pr.Keepers {
+				parts := strings.Split(kn.Obj().Pkg().Path(), "/")
+				if len(parts) >= 2 && parts[len(parts)-2] == name {
+					return &Value{K: KOpaque, Typ: kn}
+				}
+			}
+			panic(execPanic{"contract: no keeper for module " + name})
 		case "addr":
 			// addr(str): the account address denoted by a bech32 string
 			return intV(App("addr.of_str", SInt, ev(0).T))
